@@ -190,6 +190,298 @@ def apply_edit(doc, kind):
     return d
 
 
+ZOO_KINDS = {
+    "base": {"kind": "base", "name": "string"},
+    "reference": {"kind": "reference", "name": "VerifRef"},
+    "array": {"kind": "array", "element": {"kind": "base", "name": "integer"}},
+    "map": {"kind": "map", "key": {"kind": "base", "name": "string"}, "value": {"kind": "base", "name": "boolean"}},
+    "mapref": {"kind": "map", "key": {"kind": "reference", "name": "VerifKey"}, "value": {"kind": "reference", "name": "VerifRef"}},
+    "and": {"kind": "and", "items": [{"kind": "reference", "name": "VerifA"}, {"kind": "reference", "name": "VerifB"}]},
+    "or": {"kind": "or", "items": [{"kind": "reference", "name": "VerifA"}, {"kind": "base", "name": "null"}]},
+    "or3": {"kind": "or", "items": [{"kind": "base", "name": "string"}, {"kind": "base", "name": "integer"}, {"kind": "base", "name": "boolean"}]},
+    "tuple": {"kind": "tuple", "items": [{"kind": "base", "name": "uinteger"}, {"kind": "base", "name": "uinteger"}]},
+    "literal": {"kind": "literal", "value": {"properties": [{"name": "a", "type": {"kind": "base", "name": "string"}},
+                                                             {"name": "b", "type": {"kind": "base", "name": "integer"}, "optional": True}]}},
+    "stringLiteral": {"kind": "stringLiteral", "value": "create"},
+    "integerLiteral": {"kind": "integerLiteral", "value": 1},
+    "booleanLiteral": {"kind": "booleanLiteral", "value": True},
+}
+ZOO_WRAP = {
+    "array": lambda t: {"kind": "array", "element": t},
+    "map": lambda t: {"kind": "map", "key": {"kind": "base", "name": "DocumentUri"}, "value": t},
+    "or": lambda t: {"kind": "or", "items": [{"kind": "base", "name": "null"}, t]},
+    "and": lambda t: {"kind": "and", "items": [t, {"kind": "reference", "name": "VerifC"}]},
+    "tuple": lambda t: {"kind": "tuple", "items": [t, t]},
+    "literal": lambda t: {"kind": "literal", "value": {"properties": [{"name": "inner", "type": t}]}},
+}
+ZOO_INNER = ("reference", "or", "and", "tuple", "array", "literal")
+
+
+def zoo_doc():
+    """A small schema-valid document in which every type kind occurs at a property position and inside every
+    kind of container, and every optional key of every declaration kind is present once and absent once
+    (loading does not resolve references)."""
+    cp = copy.deepcopy
+    props = [{"name": "p_" + k, "type": cp(t)} for k, t in ZOO_KINDS.items()]
+    props += [{"name": "p_%s_in_%s" % (k, w), "type": ZOO_WRAP[w](cp(ZOO_KINDS[k]))} for w in ZOO_WRAP for k in ZOO_INNER]
+    props[0]["optional"] = True
+    props[1].update({"documentation": "doc", "since": "3.17.0", "proposed": True, "deprecated": "old"})
+    return {
+        "metaData": {"version": "9.9.9"},
+        "requests": [
+            {"method": "verif/full", "typeName": "VerifFullRequest", "messageDirection": "clientToServer", "params": {"kind": "reference", "name": "VerifZoo"},
+             "result": cp(ZOO_KINDS["or"]), "partialResult": cp(ZOO_KINDS["array"]), "errorData": cp(ZOO_KINDS["reference"]),
+             "registrationOptions": cp(ZOO_KINDS["and"]), "registrationMethod": "verif/registration", "documentation": "doc", "since": "3.0.0"},
+            {"method": "verif/bare", "messageDirection": "both", "result": {"kind": "base", "name": "null"}},
+        ],
+        "notifications": [
+            {"method": "verif/notify", "typeName": "VerifNotification", "messageDirection": "serverToClient", "params": {"kind": "reference", "name": "VerifZoo"},
+             "registrationOptions": cp(ZOO_KINDS["reference"]), "registrationMethod": "verif/registration"},
+            {"method": "verif/bareNotify", "messageDirection": "clientToServer"},
+        ],
+        "structures": [
+            {"name": "VerifZoo", "properties": props, "extends": [{"kind": "reference", "name": "VerifA"}, {"kind": "reference", "name": "VerifB"}],
+             "mixins": [{"kind": "reference", "name": "VerifC"}], "documentation": "doc", "since": "3.17.0"},
+            {"name": "VerifA", "properties": [{"name": "x", "type": {"kind": "base", "name": "string"}}, {"name": "y", "type": {"kind": "base", "name": "uinteger"}, "optional": True}]},
+            {"name": "VerifB", "properties": []},
+        ],
+        "enumerations": [
+            {"name": "VerifS", "type": {"kind": "base", "name": "string"}, "values": [{"name": "A", "value": "a"}, {"name": "B", "value": "b", "documentation": "doc"}], "supportsCustomValues": True},
+            {"name": "VerifI", "type": {"kind": "base", "name": "integer"}, "values": [{"name": "One", "value": 1}, {"name": "Minus", "value": -1}]},
+            {"name": "VerifU", "type": {"kind": "base", "name": "uinteger"}, "values": [{"name": "One", "value": 1}, {"name": "Two", "value": 2}, {"name": "Three", "value": 3}]},
+        ],
+        "typeAliases": [
+            {"name": "VerifAlias", "type": cp(ZOO_KINDS["or3"]), "documentation": "doc"},
+            {"name": "VerifAlias2", "type": cp(ZOO_KINDS["reference"])},
+        ],
+    }
+
+
+def _schema():
+    return json.load(open(os.path.join(common.REPO, "generator", "lsp.schema.json")))
+
+
+def _resolve(schema, sub, node):
+    """The definition name a JSON node is an instance of, following $ref and anyOf (alternatives told apart by their consts / enums)."""
+    if "$ref" in sub:
+        name = sub["$ref"].rsplit("/", 1)[1]
+        d = schema["definitions"][name]
+        if "anyOf" in d:
+            for alt in d["anyOf"]:
+                r = _resolve(schema, alt, node)
+                if r is not None:
+                    return r
+            return None
+        if d.get("type") == "object" and isinstance(node, dict):
+            for k, ps in d.get("properties", {}).items():
+                if "const" in ps and node.get(k) != ps["const"]:
+                    return None
+            return name
+        return None
+    if sub.get("type") == "object" and isinstance(node, dict):       # an inline alternative (MapKeyType's base form)
+        for k, ps in sub.get("properties", {}).items():
+            if "const" in ps and node.get(k) != ps["const"]:
+                return None
+            if "enum" in ps and node.get(k) not in ps["enum"]:
+                return None
+        return "@inline"
+    return None
+
+
+def schema_nodes(schema, doc):
+    """Every object node of doc with the schema definition it instantiates: (definition, node, context) where context is the
+    chain of (definition.key) steps from the root."""
+    out = []
+
+    def visit(node, sub, ctx):
+        name = _resolve(schema, sub, node)
+        if name is None:
+            return
+        d = schema["definitions"][name] if name != "@inline" else sub
+        if name != "@inline":
+            out.append((name, node, ctx))
+        for k, ps in d.get("properties", {}).items():
+            if k not in node:
+                continue
+            step = ctx + ("%s.%s" % (name, k),)
+            if ps.get("type") == "array" and isinstance(node[k], list) and isinstance(ps.get("items"), dict):
+                for x in node[k]:
+                    visit(x, ps["items"], step)
+            elif isinstance(node[k], dict):
+                visit(node[k], ps, step)
+            elif isinstance(node[k], list) and "anyOf" in ps:
+                for x in node[k]:
+                    visit(x, {"$ref": "#/definitions/Type"}, step)
+    visit(doc, {"$ref": "#/definitions/MetaModel"}, ())
+    return out
+
+
+def _fresh(ps, schema, old=None):
+    """A value for an optional key that is absent / a replacement for a present one."""
+    if "$ref" in ps:
+        name = ps["$ref"].rsplit("/", 1)[1]
+        d = schema["definitions"][name]
+        if "enum" in d:
+            return next(x for x in d["enum"] if x != old)
+        if name in ("Type", "MapKeyType") or "kind" in d.get("properties", {}):
+            cand = [{"kind": "base", "name": "integer"}, {"kind": "reference", "name": "VerifFresh"}]
+            if name == "EnumerationType":
+                cand = [{"kind": "base", "name": n} for n in ("string", "integer", "uinteger")]
+            return next(x for x in cand if x != old)
+        if name == "MetaData":
+            return {"version": "0.0.0"}
+        return None
+    if "enum" in ps:
+        return next(x for x in ps["enum"] if x != old)
+    t = ps.get("type")
+    if t == "string":
+        return "verif" if old != "verif" else "verif2"
+    if t == "boolean":
+        return not old if isinstance(old, bool) else True
+    if t in ("number", "integer") or (isinstance(t, list) and isinstance(old, int)):
+        return (old or 0) + 7
+    if isinstance(t, list):
+        return (old + "x") if isinstance(old, str) else "verif"
+    if t == "array":
+        it = ps.get("items", {})
+        x = _fresh(it, schema)
+        return [x] if x is not None else None
+    if "anyOf" in ps:
+        return {"kind": "reference", "name": "VerifFresh"} if old != {"kind": "reference", "name": "VerifFresh"} else {"kind": "base", "name": "integer"}
+    return None
+
+
+LIST_OPS = ("append", "prepend", "drop_last", "drop_first", "swap_ends", "clear", "dup_last", "change_last")
+
+
+def grammar_edits(schema, doc, defname, key, op, cap=4):
+    """Apply `op` at key `key` of nodes instantiating `defname`, one edited copy per distinct context (at most `cap`)."""
+    ps = schema["definitions"][defname].get("properties", {}).get(key)
+    if ps is None:
+        return []
+    seen, out = set(), []
+    nodes = schema_nodes(schema, doc)
+    for idx, (name, node, ctx) in enumerate(nodes):
+        if name != defname:
+            continue
+        present = key in node
+        if op == "add":
+            if present:
+                continue
+        elif not present:
+            continue
+        if ctx in seen and op not in ("add",):
+            continue
+        d2 = copy.deepcopy(doc)
+        n2 = schema_nodes(schema, d2)[idx][1]
+        v = n2.get(key)
+        if op == "add":
+            x = _fresh(ps, schema)
+            if x is None:
+                continue
+            n2[key] = x
+        elif op == "drop":
+            del n2[key]
+        elif op == "change":
+            if isinstance(v, list):
+                continue
+            x = _fresh(ps, schema, v)
+            if x is None or key == "kind":
+                continue
+            n2[key] = x
+        elif op == "rekind":
+            if key != "kind" or v not in ("and", "or", "tuple"):
+                continue
+            n2[key] = {"and": "or", "or": "tuple", "tuple": "and"}[v]
+        elif op in LIST_OPS:
+            if not isinstance(v, list):
+                continue
+            it = ps.get("items", {"$ref": "#/definitions/Type"})
+            x = _fresh(it, schema) if isinstance(it, dict) else None
+            if x is None and v and isinstance(v[0], dict):          # a list of declarations: a renamed copy of the first one
+                x = copy.deepcopy(v[0])
+                for nk in ("name", "method"):
+                    if nk in x:
+                        x[nk] += "Extra"
+            if op == "append":
+                if x is None:
+                    continue
+                v.append(x)
+            elif op == "prepend":
+                if x is None:
+                    continue
+                v.insert(0, x)
+            elif op == "drop_last":
+                if not v:
+                    continue
+                v.pop()
+            elif op == "drop_first":
+                if not v:
+                    continue
+                v.pop(0)
+            elif op == "swap_ends":
+                if len(v) < 2 or v[0] == v[-1]:
+                    continue
+                v[0], v[-1] = v[-1], v[0]
+            elif op == "clear":
+                if not v:
+                    continue
+                del v[:]
+            elif op == "dup_last":
+                if not v:
+                    continue
+                v.append(copy.deepcopy(v[-1]))
+            elif op == "change_last":
+                if not v or not isinstance(v[-1], dict) or "kind" not in v[-1]:
+                    continue
+                v[-1] = _fresh({"$ref": "#/definitions/Type"}, schema, v[-1])
+        else:
+            continue
+        seen.add(ctx)
+        out.append(("/".join(ctx[-2:]) or "root", d2))
+        if len(out) >= cap:
+            break
+    return out
+
+
+EQG_CODE = r'''
+import json, sys
+sys.path.insert(0, sys.argv[4])
+from generator import model
+from harness.probe_plugin import readback
+base = json.load(open(sys.argv[1]))
+out = []
+for path in json.load(open(sys.argv[2])):
+    b = json.load(open(path))
+    rec = {}
+    try:
+        rec["rb"] = readback(model.create_lsp_model([json.loads(json.dumps(b))]))
+        rec["load"] = "ok"
+    except BaseException as e:
+        rec["load"] = "raise:" + type(e).__name__
+        out.append(rec)
+        continue
+    for name, fn in (("ab", lambda x, y: x == y), ("ba", lambda x, y: y == x), ("ne", lambda x, y: x != y)):
+        try:
+            r = fn(model.create_lsp_model([json.loads(json.dumps(base))]), model.create_lsp_model([json.loads(json.dumps(b))]))
+            rec[name] = "T" if r is True else "F" if r is False else "nonbool"
+        except BaseException as e:
+            rec[name] = "raise:" + type(e).__name__
+    out.append(rec)
+json.dump(out, open(sys.argv[3], "w"))
+'''
+
+
+def run_eqg(base_path, paths, work, tag):
+    lst, outp = os.path.join(work, "eqg-%s.json" % tag), os.path.join(work, "eqgout-%s.json" % tag)
+    json.dump(paths, open(lst, "w"))
+    env = dict(os.environ, PYTHONPATH=common.REPO)
+    subprocess.run([common.PY, "-c", EQG_CODE, base_path, lst, outp, common.VERIF], cwd=common.REPO, env=env, stdout=subprocess.PIPE, stderr=subprocess.PIPE, timeout=900)
+    if not os.path.exists(outp):
+        return [{"load": "raise:NoOutput"} for _ in paths]
+    return json.load(open(outp))
+
+
 def target_node(d, target):
     """The JSON object a schema-violating edit is applied to."""
     if target == "request":
@@ -345,6 +637,9 @@ def check(tier):
     trim = trimmed(full)
     work = common.scratch("c18-")
     events, descr = [], []
+    schema, zoo = _schema(), zoo_doc()
+    if schema_invalid(zoo):
+        raise common.MachineryError("the zoo document is not schema-valid")
     try:
         def wfile(doc, name):
             p = os.path.join(work, name)
@@ -359,6 +654,8 @@ def check(tier):
                     docs = [full]
                 elif c["files"] == "trimmed":
                     docs = [trim]
+                elif c["files"] == "zoo":
+                    docs = [zoo]
                 elif c["files"] in ("two", "three"):
                     n = 2 if c["files"] == "two" else 3
                     docs = []
@@ -395,6 +692,22 @@ def check(tier):
                     return [], c
                 res = run_eq(base, b, work, tag)
                 return [{"e": "Eq", "kind": c["kind"], "a": encode(base), "b": encode(b), "res": res if res in ("T", "F") else "raise", "detail": res}], c
+            if c["c"] == "eqg":
+                edits = [(ctx, d2) for ctx, d2 in grammar_edits(schema, zoo, c["def"], c["key"], c["op"], cap=4 if tier == "quick" else 12) if not schema_invalid(d2)]
+                if not edits:
+                    return [], c
+                paths = [wfile(d2, "g-%s-%d.json" % (tag, k)) for k, (_, d2) in enumerate(edits)]
+                res = run_eqg(zoo_path, paths, work, tag)
+                short = lambda r: r if r in ("T", "F") else "raise"
+                evs = []
+                for (ctx, d2), r in zip(edits, res):
+                    head = {"def": c["def"], "key": c["key"], "op": c["op"], "ctx": ctx}
+                    if r["load"] != "ok":
+                        evs.append(dict(head, e="LoadG", b=encode(d2), readback={"k": "null"}, ok=False, detail=r["load"]))
+                        continue
+                    evs.append(dict(head, e="LoadG", b=encode(d2), readback=encode(r["rb"]), ok=True, detail="ok"))
+                    evs.append(dict(head, e="EqG", b=encode(d2), ab=short(r["ab"]), ba=short(r["ba"]), ne=short(r["ne"]), detail="%s/%s/%s" % (r["ab"], r["ba"], r["ne"])))
+                return evs, c
             if c["c"] == "gate":
                 if tier == "quick" and c["plugin"] == "testdata" and c["kind"] != "missing_required_key":
                     return [], c       # testdata runs 20+ s when the gate lets a model through; thorough runs all
@@ -416,6 +729,8 @@ def check(tier):
                          "exit": rcode if rcode >= 0 else 255, "invoked": rb is not None, "changed": changed}], c
             return [], c
 
+        zoo_path = wfile(zoo, "zoo.json")
+        zoo_enc = wfile(encode(zoo), "zoo-enc.json")
         with cf.ThreadPoolExecutor(max_workers=common.NCPU) as ex:
             for evs, c in ex.map(do_case, list(enumerate(cases))):
                 for ev in evs:
@@ -424,7 +739,7 @@ def check(tier):
         tp = os.path.join(work, "trace.json")
         json.dump(events, open(tp, "w"))
         rc, out2 = common.run_tlc("ModelLoad", "CONSTANTS NEvents = %d\nINIT TInit\nNEXT Step\nPOSTCONDITION AllConsumed\nCHECK_DEADLOCK FALSE\n" % len(events),
-                                  env={"MODEL_TRACE": tp}, heap="6g")
+                                  env={"MODEL_TRACE": tp, "MODEL_ZOO": zoo_enc}, heap="6g")
         if '"@DONE' not in out2:
             raise common.MachineryError("ModelLoad.tla did not consume the trace:\n" + out2[-2500:])
         for f in common.tagged_lines(out2, "@F"):
@@ -434,6 +749,9 @@ def check(tier):
                 if ev["e"] == "Gate":
                     sig = {"clause": clause, "kind": ev["kind"], "target": ev["target"], "plugin": ev["plugin"]}
                     small = ev
+                elif ev["e"] in ("EqG", "LoadG"):
+                    sig = {"clause": clause, "def": ev["def"], "key": ev["key"], "op": ev["op"]}
+                    small = {k: v for k, v in ev.items() if k not in ("b", "readback")}
                 elif ev["e"] == "Eq":
                     sig = {"clause": clause, "kind": ev["kind"], "detail": ev["detail"]}
                     small = {"e": "Eq", "kind": ev["kind"], "res": ev["detail"]}
